@@ -62,6 +62,16 @@ def has_kind(s, kinds):
     return any(has_kind(x, kinds) for x in s)
 
 
+def has_annotated_union(s):
+    """Annotated[...] directly around a union: unite_values distributes the metadata, so the
+    value is not a fixed point of uniting"""
+    if not isinstance(s, list):
+        return False
+    if s and s[0] == "annot" and isinstance(s[1], list) and s[1] and s[1][0] in ("union", "unite"):
+        return True
+    return any(has_annotated_union(x) for x in s)
+
+
 def impl_case(case):
     """Evaluate everything on the real code.  Returns (observables, laws, terms)."""
     from pyanalyze import value as V
@@ -94,6 +104,10 @@ def impl_case(case):
     obs["assoc_l"], obs["assoc_r"], obs["assoc"] = enc(l), enc(r), l == r
     obs["u_aa"], obs["u_a"] = enc(aa), enc(a1)
     obs["sub_a"], obs["sub_u"], obs["u_sub"], obs["subst_comm"] = enc(sa), enc(s_u), enc(u_s), s_u == u_s
+    # the dict-key identification (hash equal and ==) between all alternatives of the operands:
+    # a hash deviation anywhere inside an alternative shows up here
+    mem3 = [x for v in (a, b, c) for x in V.flatten_values(v)]
+    obs["emat"] = [[(x == y) and hash(x) == hash(y) for y in mem3] for x in mem3]
 
     flat = lambda v: list(V.flatten_values(v))
     laws["refl"] = (a == a) and hash(a) == hash(a) and (b == b)
@@ -120,7 +134,8 @@ def impl_case(case):
         laws["subst_closed"] = sa == a
     if not has_kind([x for _, x in case["m"]], ("tv",)):
         laws["subst_elim"] = not any(isinstance(x, V.TypeVarValue) and x.typevar in m for x in sa.walk_values())
-    if not has_raw_union([x for _, x in case["m"]]):  # the map's range is in normal form
+    rng_specs = [x for _, x in case["m"]]
+    if not has_raw_union(rng_specs) and not has_annotated_union(rng_specs):  # the map's range is in normal form
         laws["subst_comm"] = s_u == u_s
     if case["a"][0] == "unite":
         laws["normal_fix"] = a1 == a
@@ -139,11 +154,12 @@ def model_term(terms):
 
 def decode_model(res):
     # Coq prints left-nested pairs flat: the first component's fields come first
-    veq_ab, veq_bc, veq_ac, e_ab, heq_ab, (ab, ba, comm), (l, r, assoc), (aa, a1), (sa, s_u, u_s, scomm), guards = res
+    veq_ab, veq_bc, veq_ac, e_ab, heq_ab, (ab, ba, comm), (l, r, assoc), (aa, a1), (sa, s_u, u_s, scomm), guards, roots, emat = res
     obs = {"veq_ab": veq_ab, "veq_bc": veq_bc, "veq_ac": veq_ac, "E_ab": e_ab, "u_ab": ab, "u_ba": ba, "comm": comm,
            "assoc_l": l, "assoc_r": r, "assoc": assoc, "u_aa": aa, "u_a": a1, "sub_a": sa, "sub_u": s_u, "u_sub": u_s,
-           "subst_comm": scomm}
+           "subst_comm": scomm, "emat": emat}
     g = dict(zip(["equiv", "hash_consistent", "unhashable_literal", "annotated_unreachable", "flat", "nested_annot"], guards))
+    g["roots"] = dict(zip(["literal", "union_order", "kwonly_order", "other"], roots))
     return obs, heq_ab, g
 
 
@@ -246,10 +262,20 @@ def run(tier: str, replay: str | None = None):
             attributed = False
             if g is not None and not mism:
                 if not (g["equiv"] and g["hash_consistent"]):
-                    fid = "C14-unhashable-literal-hash" if g["unhashable_literal"] else "C14-union-order-hash"
-                    if fid in findings:
-                        rep.known(fid, findings[fid]["what"])
-                        attributed = True
+                    # every root of the inconsistency must have one of the known shapes
+                    roots = g["roots"]
+                    if g["hash_consistent"] or roots["other"] or not (roots["literal"] or roots["union_order"] or roots["kwonly_order"]):
+                        attributed = False
+                    else:
+                        for key, fid in (("literal", "C14-unhashable-literal-hash"), ("union_order", "C14-union-order-hash"),
+                                         ("kwonly_order", "C14-callable-kwonly-order-hash")):
+                            if roots[key]:
+                                if fid in findings:
+                                    rep.known(fid, findings[fid]["what"])
+                                    attributed = True
+                                else:
+                                    attributed = False
+                                    break
                 elif g["annotated_unreachable"] and set(bad) <= {"idem", "never_identity", "merged", "normal_fix", "members", "subst_comm", "subst_closed", "comm", "assoc"}:
                     fid = "C14-annotated-unreachable"
                     if fid in findings:
@@ -276,13 +302,13 @@ def run(tier: str, replay: str | None = None):
     if not proof.ok and not failing:
         rep.violation({"kind": "broken-obligation", "theorem": "; ".join(proof.broken), "log": proof.log[-1500:]}, no_failing_input=True)
 
-    n_eval = len(idx) * 16
+    n_eval = len(idx) * 17
     rep.coverage.update(
         evaluations=n_eval,
         distinct_nontrivial=len(distinct),
         rule="a case = (a, b, c, typevar map) of generated Values (literals incl. unhashable ones with shared/distinct identity, typed, NewType, "
         "generic, sequence, dict-incomplete, TypedDict, callable, annotated, subclass, typevar, raw and united nested unions); b/c are often "
-        "variants of a (shuffled unions, re-created unhashable literals); 16 observables per case are compared model vs implementation; "
+        "variants of a (shuffled unions, re-created unhashable literals); 17 observables per case (incl. the hash-and-== matrix over all alternatives) are compared model vs implementation; "
         "non-trivial = a or b is not a bare typed/Any value",
         samples=[cases[i] for i in idx[:3]],
         traces_validated_against_impl=validated,
